@@ -238,7 +238,10 @@ class Execution:
             n += 1
         self._check_returns()
         live = [t for t in asyncio.all_tasks(loop) if not t.done()]
-        self.rt.log(e='PostRun', drain_steps=n, live=len(live),
+        # work the engine submitted to a pool and did not withdraw (its future is neither done nor cancelled): in a
+        # saturated pool such an item is still queued and its body would START after the run has ended
+        pool_left = sorted(str((g.info or (0, '?'))[1]) for g in loop.pending_gates() if g.kind == 'executor')
+        self.rt.log(e='PostRun', drain_steps=n, live=len(live), pool_left=pool_left,
                     live_names=sorted(t.get_name() for t in live)[:8],
                     stuck=self.stuck, truncated=self.truncated,
                     exc_reports=len([c for c in loop.exc_reports if 'exception' in c]))
